@@ -259,6 +259,22 @@ CLAIMED['C14'] = dict(
     technique='contract-based deductive verification: per-function postconditions over symbolic field values, '
               'exception-flow obligations, symbolic execution of the real generator-based context manager, z3/cvc5')
 
+CLAIMED['C03'] = dict(
+    text='Deductive proof per function, buffers and chunks symbolic byte strings of any length: _check_incoming_pdu '
+         'appends a received chunk unchanged (end of stream / error: Evt17, socket closed); _process_incoming on an '
+         'arbitrary buffer takes a frame iff a complete PDU is buffered (len >= 6 + big-endian length field), hands '
+         'exactly those leading bytes to the decoder of the type byte (or Evt19), queues exactly one event, keeps exactly '
+         'the rest, and otherwise changes nothing; _check_network in each of the 13 states and for every select/recv '
+         'outcome queues at most one event and satisfies buffer ++ chunk == frame ++ new buffer; the run loop body, from '
+         'an arbitrary state satisfying the invariant "at most one pending event, stored with the current primitive", '
+         'hands each event to the state machine in queue order with its own primitive and re-establishes the invariant '
+         '(this is what makes "already waiting at start" irrelevant). Frames = the unique parse of the stream.',
+    ref='4/C03',
+    note=TRUST + LOOPNOTE + 'socket model (any chunk / EOF / error, nondeterministic readiness); PDU decoders through '
+         'their C12 totality contract; queued user primitives are PDU objects; local user passive in the native replay',
+    technique='contract-based deductive verification: byte-sequence postconditions on the real framing code, loop '
+              'invariant of the event loop with ghost event/primitive pairing, z3/cvc5')
+
 NOT_YET = {
 }
 
